@@ -1846,6 +1846,9 @@ def _ends_in_return(block) -> bool:
 
 
 class HelperInliner:
+    #: ids of the function definitions that were inlined somewhere (reset per canonicalise run)
+    USED: Set[int] = set()
+
     """C6.  `table` maps a resolvable callee description to its FunctionDef."""
 
     def __init__(self, module_funcs: Dict[str, ast.AST], class_methods: Dict[str, Dict[str, ast.AST]], mro: Dict[str, List[str]], new_funcs: Set[int]):
@@ -2118,6 +2121,7 @@ class HelperInliner:
                 continue
             if x in caller_names:
                 names[x] = x + tag
+        HelperInliner.USED.add(id(d))  # (this helper has at least one static call site)
         rn = _Renamer(names, direct, call)
         body = [rn.visit(s) for s in body]
         for s in body:
@@ -3020,6 +3024,7 @@ def project_new_options(modules: Dict[str, ast.Module]) -> int:
 def canonicalise(modules: Dict[str, ast.Module], known_funcs: Optional[Set[str]] = None, project: bool = False) -> Dict[str, int]:
     """Rewrite all function bodies of the package in place.  Returns counters."""
     stats = {"functions": 0, "changed": 0, "inlined_helpers": 0}
+    HelperInliner.USED = set()
     if os.environ.get("SA_CANON", "all") in ("0", "none", "off"):
         return stats
     if project:
@@ -3074,7 +3079,7 @@ def canonicalise(modules: Dict[str, ast.Module], known_funcs: Optional[Set[str]]
                     hi.changed = hi.changed or before
     # new helpers whose every call was inlined are dead code now: drop them, so that no rule analyses the
     # extracted fragment out of its context (a helper that is still referenced anywhere stays)
-    if enabled("C6") and known_funcs is not None and not os.environ.get("SA_KEEP_HELPERS"):
+    if enabled("C6") and known_funcs is not None:
         new_defs = []
         for mod, lst in funcs.items():
             for fn, cls, q in lst:
@@ -3092,7 +3097,21 @@ def canonicalise(modules: Dict[str, ast.Module], known_funcs: Optional[Set[str]]
                         refs[n.attr] = refs.get(n.attr, 0) + 1
                     elif isinstance(n, ast.Constant) and isinstance(n.value, str) and n.value.isidentifier():
                         refs[n.value] = refs.get(n.value, 0) + 1  # getattr(x, "name")
-            dead = {id(fn) for mod, fn in new_defs if refs.get(fn.name, 0) == 0}
+            # names that are looked up dynamically: `getattr(obj, f"_visit_{...}")` reaches every method with that prefix
+            dyn_prefixes = set()
+            for tree in modules.values():
+                for n in ast.walk(tree):
+                    if isinstance(n, ast.Call) and isinstance(n.func, ast.Name) and n.func.id in ("getattr", "hasattr") and len(n.args) >= 2 and isinstance(n.args[1], ast.JoinedStr) \
+                            and n.args[1].values and isinstance(n.args[1].values[0], ast.Constant) and isinstance(n.args[1].values[0].value, str) and n.args[1].values[0].value:
+                        dyn_prefixes.add(n.args[1].values[0].value)
+            # (a helper that was inlined somewhere has static call sites and is judged by its references alone; one that was
+            # never called by name may be reached through such a lookup and stays)
+            dead = {id(fn) for mod, fn in new_defs if refs.get(fn.name, 0) == 0
+                    and (id(fn) in HelperInliner.USED or not any(fn.name.startswith(px) for px in dyn_prefixes))}
+            if os.environ.get("SA_KEEP_HELPERS"):
+                # (round-trip tool: a helper that was inlined stays defined - a check script may import it; what is dropped as
+                # never referenced is still dropped, so that a wrong deletion shows in the controls)
+                dead = {i_ for i_ in dead if i_ not in HelperInliner.USED}
             # references from inside other dead helpers do not count - keep it simple: one pass
             if dead:
                 for tree in modules.values():
